@@ -49,6 +49,8 @@ BOUNDS = {
              "radial minimum: 1..3 symbolic points as ndarray / Grid2DIrregular / Grid2D (1x2 masks), symbolic minima r_A, r_B > 0 of a base class and a "
              "subclass sharing the decorated method (config lookup stubbed) and the real autoconf lookup with minima 0.5 / 2.0; "
              "decorator stack to_array(transform(relocate)) with symbolic profile centre (translation) on Grid2D (1x2 masks) / Grid2DIrregular (<=2 points); "
+             "user functions on a Grid2D that return an already structured result (Array2D / Grid2D / VectorYX2D built by the user in native storage on "
+             "the same mask, on an equal-pattern mask with another origin, Grid2D with another over-sampling) in every Grid2D case; "
              "subclass inputs (aa.Grid2DIrregularUniform; trivial harness subclasses of Grid2D / Grid2DIrregular / Grid1D) through every decorator and "
              "return kind: <=3 points, Grid1D length<=3, Grid2D masks of 1x1, 1x2, 2x2; "
              "histories: two grids with different symbolic coordinates on ONE mask geometry (separate equal mask objects) called A, B, A through "
@@ -200,13 +202,16 @@ def _coords(g):
     return a
 
 
-def _user(uf, log, kind):
-    """body of the mock profile method: records what it received and returns f_i(coordinate k)"""
+def _user(uf, log, kind, wrap=None):
+    """body of the mock profile method: records what it received and returns f_i(coordinate k); `wrap(grid, values)` lets the
+    function hand back an already structured result (Grid2D / Array2D / VectorYX2D built by the user) instead of a plain ndarray"""
 
     def fn(self, grid, *args, **kwargs):
         c = _coords(grid)
         out = uf.ret(kind, c.reshape(-1, 2))
         log.append({"type": type(grid).__name__, "coords": c.copy(), "grid": grid, "kwargs": dict(kwargs), "args": args, "ret": out})
+        if wrap is not None:
+            return wrap(grid, out)
         return out
 
     return fn
@@ -303,10 +308,27 @@ def body_grid2d(inp, H, W, variant, scales, sub="base"):
         grid = _grid_cls("Grid2D", sub)(values=g.copy(), mask=m2, over_sampling=osamp)
         ref = [(g[k, 0], g[k, 1]) for k in range(n)]
     A, E = {}, {}
-    for dec, kind, cls2d, _ in DEC_KINDS:
-        key = "%s.%s" % (dec, kind)
+    # user functions that return an ALREADY STRUCTURED result: the decorated result must still follow the INPUT grid
+    # (its mask object/geometry, slim storage with entry k for unmasked pixel k, its over-sampling)
+    cont = {"to_array": aa.Array2D, "to_grid": aa.Grid2D, "to_vector_yx": aa.VectorYX2D}
+
+    def mk_wrap(dec, how):
+        def wrap(g_in, vals):
+            extra = {"grid": g_in} if dec == "to_vector_yx" else {}
+            if how == "native_same_mask":          # same mask object, native (H, W[, 2]) storage
+                return cont[dec](values=vals, mask=g_in.mask, store_native=True, **extra)
+            if how == "other_origin":              # equal pattern, other mask object with a different origin
+                m_o = aa.Mask2D(mask=mask.copy(), pixel_scales=(sy, sx), origin=(oy + 1.0, ox - 2.0))
+                return cont[dec](values=vals, mask=m_o, **extra)
+            return aa.Grid2D(values=vals, mask=g_in.mask, over_sampling=aa.OverSamplingUniform(sub_size=4))   # other_over_sampling
+        return wrap
+
+    structured = [(d, k, c, how) for (d, k, c) in (("to_array", "scalar", "Array2D"), ("to_grid", "pair", "Grid2D"), ("to_vector_yx", "pair", "VectorYX2D"))
+                  for how in ("native_same_mask", "other_origin")] + [("to_grid", "pair", "Grid2D", "other_over_sampling")]
+    for dec, kind, cls2d, how in [(d, k, c, None) for (d, k, c, _) in DEC_KINDS] + structured:
+        key = "%s.%s" % (dec, kind) + ("" if how is None else ".returns_" + how)
         log = []
-        P = _profile("C17Profile", _user(uf, log, kind), [getattr(aa.grid_dec, dec)], centre=(0.0, 0.0))
+        P = _profile("C17Profile", _user(uf, log, kind, wrap=None if how is None else mk_wrap(dec, how)), [getattr(aa.grid_dec, dec)], centre=(0.0, 0.0))
         res = hx.attempt(lambda: P().fn(grid))
         # what reached the user function: the input grid itself, coordinate k in slim order
         A[key + ".seen_type"] = log[-1]["type"] if log else None
